@@ -188,6 +188,21 @@ def _atom_text(e, env):
     return norm(e)
 
 
+def _class_const(e, env):
+    """self.NAME / cls.NAME / ClassName.NAME naming a class-level constant that no method re-assigns"""
+    fi = env.fi
+    if fi is None or fi.cls is None or not (isinstance(e.value, ast.Name) and e.value.id in ("self", "cls", fi.cls.name)):
+        return None
+    v = fi.cls.attrs.get(e.attr)
+    if v is None:
+        return None
+    for m in fi.cls.methods.values():
+        for n in ast.walk(m.node):
+            if isinstance(n, ast.Attribute) and n.attr == e.attr and isinstance(n.ctx, (ast.Store, ast.Del)):
+                return None
+    return v
+
+
 def lin(e, env=None):
     env = env or Env()
     if isinstance(e, Form):
@@ -229,6 +244,12 @@ def lin(e, env=None):
                     env._busy.discard(e.id)
         return Form.atom(e.id)
     if isinstance(e, ast.Attribute):
+        cc = _class_const(e, env)
+        if cc is not None:
+            try:
+                return lin(cc, Env(None, env.prog))
+            except NonAffine:
+                pass
         if e.attr in ("start", "end", "duration"):
             ts = _timeslot_parts(e.value, env)
             if ts is not None:
